@@ -149,6 +149,7 @@ class Env:
         self.await_results = {}   # task instance name -> [(awaiter, kind, ident)]
         self.refused = []         # (coroutine weakref, name) of payloads refused by do()
         self.task_names = {}      # id(task) -> instance name
+        self.task_inst = {}       # instance name -> Task
         self.tasks = {}           # child name -> Task
         self.ctxs = {}            # activity name -> Ctx
         self.scopes = {}          # scope step id -> Scope object
@@ -499,10 +500,9 @@ def spawn(env, ctx, scope, key, child):
                            '%s: do() accepted %s although control had left the block' % (
                                ctx.name, name))
     cctx.task = task
-    env.tasks[name] = task
+    env.task_inst[name] = task
     env.task_names[id(task)] = name
-    if child['name'] != name:
-        env.tasks[child['name']] = task     # by-name references mean the latest instance
+    env.tasks[child['name']] = task     # by-name references mean the latest instance
     if info is not None:
         info['children'].append((name, bool(child.get('volatile'))))
     env.log(ctx.name, 'spawn', name)
@@ -680,7 +680,7 @@ def scope_exit_monitor(env, ctx, key, scope, body_exc, outer_exc):
     # ---- C04: every task started in the block is done ----
     statuses = {}
     for name, volatile in info['children']:
-        task = env.tasks.get(name)
+        task = env.task_inst.get(name)
         if task is None:
             continue
         statuses[name] = str(task.status).split('.')[-1]
@@ -843,16 +843,27 @@ async def op_await_task(env, ctx, step):
     task = env.tasks.get(step['task'])
     if task is None:
         return 'notask'
+    name = env.task_names.get(id(task))
+    record = env.await_results.setdefault(name, [])
     try:
-        return await task
+        value = await task
     except (TaskCancelled, TaskClosed) as exc:
+        record.append((ctx.name, 'TaskCancelled' if isinstance(exc, TaskCancelled)
+                       else 'TaskClosed', id(exc), env.sess.now(),
+                       getattr(exc, 'subject', None) is task, tuple(exc.args)))
         if step.get('reraise'):
             raise
         return exc_name(exc)
     except BaseException as exc:  # noqa: B902
+        if not isinstance(exc, (Interrupt, GeneratorExit)) and env.sess.armed \
+                and env.sess.stack:     # R3: not during teardown
+            record.append((ctx.name, 'exc:' + type(exc).__name__, id(exc), env.sess.now(),
+                           None, None))
         if env.is_own(exc) and step.get('catch'):
             return exc_name(exc)
         raise
+    record.append((ctx.name, 'value', repr(value), env.sess.now(), None, None))
+    return value
 
 
 async def op_raise(env, ctx, step):
@@ -933,6 +944,139 @@ HANDLERS = {
 }
 
 
+RANK = {'CREATED': 0, 'RUNNING': 1, 'SUCCESS': 2, 'FAILED': 2, 'CANCELLED': 2}
+
+
+class LifecycleMonitor:
+    """C06: status sequence, stable outcome, effect of cancel(); attached per execution"""
+
+    def __init__(self, env):
+        self.env = env
+        self.history = {}       # task instance name -> [status, ...] (changes only)
+        self.pending = []       # cancel calls of the current time step still to be judged
+        self.judged = 0
+        sess = env.sess
+        sess.boundary_hooks.append(self.sample)
+        sess.step_end_hooks.append(self.step_end)
+
+    def status(self, task):
+        return str(task.status).split('.')[-1]
+
+    def sample(self, sess, loop=None, target=None, signal=None):
+        env = self.env
+        for name, task in env.task_inst.items():
+            now = self.status(task)
+            seq = self.history.setdefault(name, [])
+            if not seq or seq[-1] != now:
+                if seq:
+                    if RANK[now] < RANK[seq[-1]] or RANK[seq[-1]] == 2:
+                        sess.violation(
+                            'c06:status-went-backwards',
+                            'task %s changed status %s -> %s' % (name, seq[-1], now))
+                seq.append(now)
+                sess.stats['c06_status_changes'] += 1
+        sess.stats['c06_samples'] += 1
+
+    def step_end(self, sess, loop, prev_time):
+        env = self.env
+        self.sample(sess)
+        for name, calls in env.cancel_calls.items():
+            task = env.task_inst.get(name)
+            if task is None:
+                continue
+            for when, token, status, n in calls:
+                if when != prev_time:
+                    continue
+                self.judged += 1
+                sess.stats['c06_cancels_judged'] += 1
+                if status in ('CREATED', 'RUNNING') and not task.done:
+                    sess.violation(
+                        'c06:cancel-not-effective-in-time-step',
+                        'task %s was %s when cancelled at %r but is still not done at the '
+                        'end of that time step' % (name, status, when))
+
+    def finish(self):
+        env = self.env
+        sess = env.sess
+        self.sample(sess)
+        begun = {}
+        cancel_seen = {}
+        for index, event in enumerate(sess.events):
+            if event[2] == 'begin':
+                begun.setdefault(event[1], (index, event[0]))
+            if event[2] == 'fail' and event[3] == 'CancelTask':
+                cancel_seen[event[1]] = event[0]
+        for name, calls in env.cancel_calls.items():
+            task = env.task_inst.get(name)
+            if task is None:
+                continue
+            final = self.status(task)
+            effective = [call for call in calls if call[2] in ('CREATED', 'RUNNING')]
+            if not effective:
+                continue
+            first = effective[0]
+            if first[2] == 'CREATED':
+                sess.stats['c06_cancel_before_start'] += 1
+                if name in begun:
+                    sess.violation(
+                        'c06:cancelled-before-start-but-ran',
+                        'task %s was cancelled at %r before its first activation but its '
+                        'code ran at %r' % (name, first[0], begun[name][1]))
+                if final != 'CANCELLED':
+                    sess.violation(
+                        'c06:cancelled-before-start-wrong-status',
+                        'task %s cancelled before start ended as %s' % (name, final))
+            else:
+                sess.stats['c06_cancel_running'] += 1
+            if final == 'CANCELLED' and name in begun and name in cancel_seen \
+                    and cancel_seen[name] != first[0] and first[2] == 'RUNNING':
+                # the cancellation surfaced in the payload: it must be in the time step of cancel()
+                later = [call for call in effective if call[0] == cancel_seen[name]]
+                if not later:
+                    sess.violation(
+                        'c06:cancellation-delivered-late',
+                        'task %s cancelled at %r saw the cancellation at %r' % (
+                            name, first[0], cancel_seen[name]))
+            for awaiter, kind, ident, when, subject_ok, args in env.await_results.get(name, ()):
+                if kind == 'TaskCancelled' and final == 'CANCELLED':
+                    if not subject_ok:
+                        sess.violation('c06:taskcancelled-wrong-subject',
+                                       '%s awaiting %s got TaskCancelled of another task' % (
+                                           awaiter, name))
+                    if args != first[1]:
+                        sess.violation(
+                            'c06:taskcancelled-wrong-token',
+                            '%s awaiting %s got token %r, cancel() was called with %r' % (
+                                awaiter, name, args, first[1]))
+        # every awaiter of one task sees the same outcome (identity for exceptions)
+        for name, records in env.await_results.items():
+            outcomes = {(kind, ident) for _, kind, ident, _, _, _ in records}
+            sess.stats['c06_awaits'] += len(records)
+            if len(outcomes) > 1:
+                sess.violation(
+                    'c06:awaiters-disagree',
+                    'awaiters of %s received different outcomes: %s' % (
+                        name, sorted((kind, when) for _, kind, _, when, _, _ in records)))
+            task = env.task_inst.get(name)
+            if task is not None and records:
+                final = self.status(task)
+                kinds = {kind for _, kind, _, _, _, _ in records}
+                expect = {'SUCCESS': 'value', 'CANCELLED': None, 'FAILED': 'exc'}[final] \
+                    if final in ('SUCCESS', 'CANCELLED', 'FAILED') else None
+                if final == 'SUCCESS' and kinds != {'value'}:
+                    sess.violation('c06:outcome-does-not-match-status',
+                                   'task %s is SUCCESS but awaiters got %s' % (name, kinds))
+                if final == 'FAILED' and not all(k.startswith('exc:') for k in kinds):
+                    sess.violation('c06:outcome-does-not-match-status',
+                                   'task %s is FAILED but awaiters got %s' % (name, kinds))
+                if final == 'CANCELLED' and not kinds <= {'TaskCancelled', 'TaskClosed'}:
+                    sess.violation('c06:outcome-does-not-match-status',
+                                   'task %s is CANCELLED but awaiters got %s' % (name, kinds))
+        for name, seq in self.history.items():
+            if seq and seq[0] not in ('CREATED', 'RUNNING'):
+                pass    # first sampled after it finished within one turn: fine
+
+
 def containment_monitor(env):
     """C04, offline over the recorded log: no code of a task (or of anything below it) runs
     after control left the block the task was started in"""
@@ -998,12 +1142,13 @@ def containment_monitor(env):
             sess.violation('c04:refused-payload-ran', 'payload %s refused by do() ran' % name)
 
 
-def execute(program, session=None, prepare=None):
+def execute(program, session=None, prepare=None, lifecycle=True):
     """run a program under a (new) session; returns (env, outcome)"""
     sess = session if session is not None else Session()
     env = Env(program, sess)
     sess.budget_per_step = 400 + 60 * env.nsteps
     sess.budget_total = 20000 + 2000 * env.nsteps
+    env.lifecycle = LifecycleMonitor(env) if lifecycle else None
     if prepare is not None:
         prepare(env)
     roots = [activity(env, root) for root in program['roots']]
@@ -1015,4 +1160,6 @@ def execute(program, session=None, prepare=None):
             pass
     env.outcome = env.classify_outcome(outcome)
     containment_monitor(env)
+    if env.lifecycle is not None:
+        env.lifecycle.finish()
     return env, outcome
